@@ -221,6 +221,14 @@ def tool_text(files: Dict[str, str], renames: Optional[List[str]], ops: List[Tup
 
 
 def items(tier: str, seed: int):
+    out = pairs(tier)
+    # biggest searches first (the runner hands items out in list order)
+    weight = {"cond_prompt": 0, "choice_select": 1, "menu_visible_if_menuconfig": 2, "warning_menu_depends_comment": 3, "set_promptless_float": 4}
+    out.sort(key=lambda it: weight.get(it["tree"], 9))
+    return out
+
+
+def pairs(tier: str):
     depth = 4 if tier == "quick" else 5
     jump_prefix = 1 if tier == "quick" else 2
     loads = ["load_tool.cfg", "@conf"] if tier == "quick" else ["load_tool.cfg", "load_frag.cfg", "@conf"]
@@ -267,9 +275,6 @@ def items(tier: str, seed: int):
                     "jump_prefix": jump_prefix,
                 }
             )
-    # biggest searches first (the runner hands items out in list order)
-    weight = {"cond_prompt": 0, "choice_select": 1, "menu_visible_if_menuconfig": 2, "warning_menu_depends_comment": 3, "set_promptless_float": 4}
-    out.sort(key=lambda it: weight.get(it["tree"], 9))
     return out
 
 
@@ -394,7 +399,7 @@ def mk_case(item: Dict[str, Any], h: tuple) -> Dict[str, Any]:
         "program": item["spec"]["files"]["Kconfig"],
         "sdkconfig": item["spec"]["sdk"],
         "history": [list(a) for a in h],
-        "item": item,
+        "item": {k: v for k, v in item.items() if k != "prefix"},
     }
 
 
@@ -457,36 +462,39 @@ def enabled_for(item: Dict[str, Any], h: tuple, st: headless.Harness) -> List[tu
 
 def explore_item(item: Dict[str, Any], r: common.Result, only_history: Any = None):
     spec = item["spec"]
+    P, depth = (), item["depth"]
 
     def build(h):
-        return headless.replay(spec, h)
+        return headless.replay(spec, P + h)
 
     def enabled(h, st):
-        return enabled_for(item, h, st)
+        return enabled_for(item, P + h, st)
 
     def canon(st):
         return st.canon()
 
     def check(h, st):
-        oracle(item, h, st, r)
+        oracle(item, P + h, st, r)
 
     def on_raise(h, e):
         if not isinstance(e, headless.Raised):
             raise e
         r.evals += 1
-        raised_violation(item, h, e, r)
+        raised_violation(item, P + h, e, r)
 
     try:
         if only_history is not None:
             h = headless.norm_history(only_history)
             try:
-                check(h, build(h))
+                oracle(item, h, headless.replay(spec, h), r)
             except headless.Raised as e:
                 raised_violation(item, h, e, r)
             return None
         try:
-            st = explore.bfs(build, enabled, canon, check, item["depth"], on_raise=on_raise)
+            st = explore.bfs(build, enabled, canon, check, depth, on_raise=on_raise)
         except headless.Raised as e:  # the initial state itself
+            if P:
+                return None  # reported by the root item of the pair
             raised_violation(item, (), e, r)
             return None
         r.states += st.states
@@ -613,5 +621,5 @@ def _conformance_run(its: List[Dict[str, Any]], n: int, seed: int, length: int, 
 
 def conformance(tier: str, seed: int):
     n = 5 if tier == "quick" else 100
-    its = items(tier, seed)
+    its = pairs(tier)
     return conformance_run(__name__, its, n, seed, 4 if tier == "quick" else 5, False)
